@@ -55,6 +55,11 @@ structure Cfg where
   ignoreWrappers : Bool
   complexAs : ComplexAs
   polymorphic : Bool
+  /-- `MessagePackDocument(raw=…)` / `MessagePackRpc(raw=…)` (msgpack only; MessagePackRpc also hands it to the unpacker:
+      every `str` of the request then arrives as `bytes` — that is a property of the parsed document the model is given) -/
+  mpRaw : Bool := false
+  /-- `MessagePackDocument(use_bin_type=…)`; together with `raw` it selects the leaf handler table (`from_serstr`) -/
+  mpBinType : Bool := true
   deriving Repr, DecidableEq, Inhabited
 
 def Proto.isMsgpack : Proto → Bool
@@ -122,6 +127,16 @@ structure Facts02 where
   /-- the object form of a `File` value (`{"name": …, "type": …, "data": …}`) is read by `_doc_to_object` with the
       validator of the protocol (good); otherwise without any (`_doc_to_object(ctx, cls, inst)`, validator = None) -/
   fileFormValidated : Bool
+  /-- the MessagePack constructor settings `(raw, use_bin_type)` for which `from_serstr` is `from_bytes` (the
+      `_from_bytes_handlers` table: Date / Time / DateTime / Duration text is also accepted as `bytes`, decoded as UTF-8
+      first); for all others it is `from_unicode`. A description of the code (msgpack.py:94-98), not a defect switch. -/
+  mpBytesTable : List (Bool × Bool)
+  /-- the settings `(raw, use_bin_type)` whose handler table passes a Boolean through unchecked (`_ret` instead of
+      `_ret_bool`): good = none -/
+  mpBoolPassThrough : List (Bool × Bool)
+  /-- with the `from_bytes` table, undecodable bytes where Date / Time / DateTime / Duration text is expected are a
+      ValidationError (good) rather than UnicodeDecodeError -/
+  tableUtf8Fault : Bool
   deriving Repr
 
 /-- the switches the round trip of conformant values depends on -/
@@ -147,6 +162,8 @@ structure Facts02.Good (G : Facts02) : Prop where
   bin : G.binKindFault = true
   raw : G.rawBytesKindFault = true
   nest : G.nestedArrayOk = true
+  mpbool : G.mpBoolPassThrough = []
+  tutf8 : G.tableUtf8Fault = true
 
 def Facts02.Good.toRT {G : Facts02} (h : G.Good) : G.GoodRT := ⟨h.occ, h.nul, h.jnull, h.nest⟩
 
@@ -302,9 +319,29 @@ def strIn (G : Facts02) : Doc → Res Val
      | none => if G.utf8Fault then .fault else .crash "UnicodeDecodeError")
   | _ => leakVal
 
-/-- Date / Time / DateTime / Duration: the text parsers -/
-def textIn (F : Facts08) (G : Facts02) (p : PrimTy) : Doc → Res Val
+/-- does the configuration read leaves with the `_from_bytes_handlers` table? -/
+def Cfg.bytesTable (cfg : Cfg) (G : Facts02) : Bool :=
+  cfg.proto.isMsgpack && G.mpBytesTable.contains (cfg.mpRaw, cfg.mpBinType)
+
+/-- is Boolean passed through unchecked by the configuration's handler table? -/
+def Cfg.boolPass (cfg : Cfg) (G : Facts02) : Bool :=
+  cfg.proto.isMsgpack && G.mpBoolPassThrough.contains (cfg.mpRaw, cfg.mpBinType)
+
+/-- Boolean through `_ret`: whatever stands there is handed on -/
+def boolPassIn : Doc → Res Val
+  | .bool b => .good (.bool b)
+  | _ => leakVal
+
+/-- Date / Time / DateTime / Duration: the text parsers; `bt`: the `from_bytes` table (`date_from_bytes` … decode `bytes`
+    as UTF-8 and go on as with text) -/
+def textIn (F : Facts08) (G : Facts02) (bt : Bool) (p : PrimTy) : Doc → Res Val
   | .str s => ofOutcome (leafFromText F p s)
+  | .bytes bs =>
+    if bt then
+      (match utf8Dec bs with
+       | some s => ofOutcome (leafFromText F p s)
+       | none => if G.tableUtf8Fault then .fault else .crash "UnicodeDecodeError")
+    else kindError G
   | _ => kindError G
 
 /-- ByteArray with a text encoding (`raw = false`) or MessagePack's raw bytes -/
@@ -338,12 +375,12 @@ def isRaw (cfg : Cfg) (enc : BinEnc) : Bool := cfg.proto.isMsgpack && decide (en
 def leafIn (F : Facts08) (G : Facts02) (cfg : Cfg) (p : PrimTy) (d : Doc) : Res Val :=
   match p with
   | .integer k _ => if cfg.proto.isMsgpack then intInMp F G k d else intInJson G d
-  | .boolean => boolIn G d
+  | .boolean => if cfg.boolPass G then boolPassIn d else boolIn G d
   | .unicode _ _ _ _ => strIn G d
-  | .date => textIn F G .date d
-  | .time => textIn F G .time d
-  | .dateTime => textIn F G .dateTime d
-  | .duration => textIn F G .duration d
+  | .date => textIn F G (cfg.bytesTable G) .date d
+  | .time => textIn F G (cfg.bytesTable G) .time d
+  | .dateTime => textIn F G (cfg.bytesTable G) .dateTime d
+  | .duration => textIn F G (cfg.bytesTable G) .duration d
   | .bytes enc => bytesIn F G enc (isRaw cfg enc) d
   | .enum names => enumIn names d
 
